@@ -405,6 +405,7 @@ func pipeline(reps int, dump string) {
 	redundantEdgesPart(reps)
 	disasmPart(reps)
 	mergeRepeatPart(reps)
+	legacyParseRepeatPart(reps)
 	// fetch completion order: three sources finishing in opposite orders
 	delays := [][]time.Duration{{0, 15 * time.Millisecond, 30 * time.Millisecond}, {30 * time.Millisecond, 15 * time.Millisecond, 0}}
 	for _, f := range [][]string{{"-proto"}, {"-raw"}, {"-top"}} {
@@ -440,7 +441,7 @@ func mergeRepeatPart(reps int) {
 		return vlib.ALoc{Map: m, Rel: rel, Lines: []vlib.ALine{{Fn: fn(name, name+".c"), Line: 1}}}
 	}
 	skeys := []string{"zone", "app", "tag", "user"}
-	nkeys := []string{"bytes", "align", "request", "latency"}
+	nkeys := []string{"align", "request", "latency", "bytes"} // two numeric keys: none of them is "bytes"
 	mk := func(which int) vlib.AProf {
 		var ss []vlib.ASample
 		for ns := 0; ns <= 4; ns++ {
@@ -462,7 +463,7 @@ func mergeRepeatPart(reps int) {
 	conc := vlib.NewConc(0)
 	p0, p1 := conc.Profile(mk(0)), conc.Profile(mk(1))
 	for _, srcs := range [][]string{{"s0"}, {"s0", "s1"}, {"-base=s1", "s0"}, {"-diff_base=s1", "s0"}} {
-		for _, f := range [][]string{{"-proto"}, {"-raw"}, {"-traces"}, {"-tags"}, {"-top"}, {"-comments"}} {
+		for _, f := range [][]string{{"-proto"}, {"-raw"}, {"-traces"}, {"-tags"}, {"-top"}, {"-comments"}, {"-dot"}, {"-dot", "-call_tree"}} {
 			var first []byte
 			for k := 0; k < reps*3; k++ {
 				args := append(append([]string{"-functions", "-flat"}, f...), "-nodecount=0", "-output=out")
@@ -484,6 +485,56 @@ func mergeRepeatPart(reps int) {
 					run.Violate("merge-repeat", "nondeterministic-merge:"+strings.TrimLeft(f[0], "-"), fmt.Sprintf("run %d of %v %v differs from run 0:\n%s\nvs\n%s", k, f, srcs, clip(first), clip(res.Files["out"])), nil, nil)
 					break
 				}
+			}
+		}
+	}
+}
+
+// parsing is deterministic too: small legacy binary CPU profiles (1..4 samples whose callers differ or agree; the
+// parser's heuristics count frames in maps) parsed again and again give the same profile
+func legacyParseRepeatPart(reps int) {
+	mk := func(stacks [][]uint64) []byte {
+		w := []uint64{0, 3, 0, 100, 0}
+		for _, st := range stacks {
+			w = append(w, 1, uint64(len(st)))
+			w = append(w, st...)
+		}
+		w = append(w, 0, 1, 0)
+		var b bytes.Buffer
+		for _, x := range w {
+			var le [8]byte
+			for i := 0; i < 8; i++ {
+				le[i] = byte(x >> (8 * uint(i)))
+			}
+			b.Write(le[:])
+		}
+		b.WriteString("00400000-00500000 r-xp 00000000 00:00 0 /bin/prog\n")
+		return b.Bytes()
+	}
+	docs := map[string][]byte{
+		"two-different-callers":   mk([][]uint64{{0x400010, 0x400020}, {0x400030, 0x400040}}),
+		"two-deep":                mk([][]uint64{{0x400010, 0x400020, 0x400050}, {0x400030, 0x400040, 0x400050}}),
+		"two-same-caller":         mk([][]uint64{{0x400010, 0x400020}, {0x400030, 0x400020}}),
+		"three-different-callers": mk([][]uint64{{0x400010, 0x400020}, {0x400030, 0x400040}, {0x400050, 0x400060}}),
+		"one":                     mk([][]uint64{{0x400010, 0x400020}}),
+		"four-two-and-two":        mk([][]uint64{{0x400010, 0x400020}, {0x400030, 0x400020}, {0x400050, 0x400040}, {0x400060, 0x400040}}),
+	}
+	for name, doc := range docs {
+		first := ""
+		for k := 0; k < reps*10; k++ {
+			p, err := profile.ParseData(doc)
+			got := ""
+			if err != nil {
+				got = "error: " + err.Error()
+			} else {
+				got = p.String()
+			}
+			run.Count("legacyparse|" + name)
+			if k == 0 {
+				first = got
+			} else if got != first {
+				run.Violate("parse-repeat", "nondeterministic-parse:"+name, fmt.Sprintf("parse %d of the same bytes differs from parse 0:\n%s\nvs\n%s", k, clip([]byte(first)), clip([]byte(got))), nil, nil)
+				break
 			}
 		}
 	}
